@@ -2,6 +2,7 @@
 import itertools
 
 ID = "C17"
+EXTRA_PROPS = ["MergeFnsTables"]   # one iteration of the while loop of merge_fragments as TRANSLATED from src/ansi.rs = one step of the model's literal loop
 N_QUICK, N_THOROUGH = 20000, 150000
 RULE = ("quick: random ordered (coloured, highlight) range-list pairs over texts of n <= 40 characters (gaps 0 = adjacent, lengths 0 = "
         "empty ranges, nested / covering / straddling arrangements forced), through merge_fragments (M), new_string+override_attrs+iter (O), "
